@@ -638,13 +638,13 @@ pub fn grid_case<S: Fl>(idx: u64, cx: &mut Cx) -> CaseResult {
 // closest-point search
 
 /// error bound of a squared distance whose curve point carries the error `e` (all in shape units)
-fn d2_err<S: Fl>(d: f64, e: f64) -> f64 {
+pub(crate) fn d2_err<S: Fl>(d: f64, e: f64) -> f64 {
     2.0 * d.sqrt() * e + e * e + 8.0 * S::eps() * d
 }
 
 /// Per-point evaluation error in shape units: <= 8 eps max|control| per axis (5 roundings inside `evaluate`,
 /// rounded parameter), combined over the axes; times the amplification (|t|+|1-t|)^deg outside [0,1].
-fn eval_err<S: Fl>(pl: &Placed<S>, dim: usize, deg: usize, t: f64) -> f64 {
+pub(crate) fn eval_err<S: Fl>(pl: &Placed<S>, dim: usize, deg: usize, t: f64) -> f64 {
     let mut s = 0.0;
     for ax in 0..dim {
         let e = 8.0 * S::eps() * pl.maxc_u(ax) + 8.0 * pl.quantum_u(ax) + 4.0 * deg as f64 * S::eps() * pl.mmax(ax);
@@ -653,7 +653,7 @@ fn eval_err<S: Fl>(pl: &Placed<S>, dim: usize, deg: usize, t: f64) -> f64 {
     s.sqrt() * (t.abs() + (1.0 - t).abs()).max(1.0).powi(deg as i32)
 }
 
-fn gen_metric_shape(t: &mut Tape, n: usize, dim: usize) -> Vec<[f64; 3]> {
+pub(crate) fn gen_metric_shape(t: &mut Tape, n: usize, dim: usize) -> Vec<[f64; 3]> {
     let mut shape = vec![[0.0f64; 3]; n];
     let ints = t.chance(64);
     for p in shape.iter_mut() {
@@ -769,11 +769,11 @@ pub fn search_regime_case<S: Fl, C: Cv<S>>(t: &mut Tape, cx: &mut Cx) -> CaseRes
 // -------------------------------------------------------------------------------------------------
 // length
 
-fn seg(a: &[f64; 3], b: &[f64; 3]) -> f64 {
+pub(crate) fn seg(a: &[f64; 3], b: &[f64; 3]) -> f64 {
     dist2(a, b).sqrt()
 }
 
-fn polyline_u(m: &[[f64; 3]], s: u32) -> f64 {
+pub(crate) fn polyline_u(m: &[[f64; 3]], s: u32) -> f64 {
     let mut l = 0.0;
     let mut prev = m[0];
     for i in 1..=(s + 1) {
